@@ -877,7 +877,7 @@ def runs_for(rng, kinds=("random", "pct", "rr", "dfs"), dfs_iters=None):
     if k == "pct":
         return f"pct:{rng.below(2**32)}:{1 + rng.below(4)}:{3 + rng.below(3)}"
     if k == "rr":
-        return "rr:1"
+        return "rr:1" if rng.chance(1, 2) else f"rr:{2 + rng.below(2)}"      # same schedule again, fresh data seed
     if k == "urw":
         return f"urw:{rng.below(2**32)}:{2 + rng.below(3)}"
     return f"dfs:{5 + rng.below(20)}" if not dfs_iters else f"dfs:{dfs_iters}"
